@@ -43,7 +43,8 @@ pub fn fair_sock_outcome(c: &FairSockCase) -> Outcome {
             let k = c.backlog.len();
             let mut links = vec![];
             for _ in 0..k {
-                match crate::simx::attach_raw(&mut sim, s, None).await {
+                // odd `order`: the peers announce an empty Identity (libzmq's default)
+                match crate::simx::attach_raw(&mut sim, s, if c.order & 1 == 1 { Some(&[][..]) } else { None }).await {
                     Ok((l, _)) => links.push(l),
                     Err(e) => {
                         fail!(f, format!("C06/{}/setup", who), "{}", e);
